@@ -61,20 +61,31 @@ def topo_worker(cases, lay_by_key, extra):
             for variant in (0, 1, 2):
                 kinds = CL.assign_kinds(deps, variant)
                 doc, nm = CL.isar_document(deps, order, kinds)
-                sub = os.path.join(work, "c%d_%d" % (ci, variant))
+                # (the directory doubles as a package name: unique within the process)
+                sub = os.path.join(work, "c%s_%d_%d" % ("".join(ch if ch.isalnum() else "x" for ch in os.path.basename(work)[-8:]), ci, variant))
                 os.mkdir(sub)
+                # 0..3 included files in front of the definitions: include nodes are part of the list that is sorted
+                n_inc = (ci + variant) % 4
+                for q in range(n_inc):
+                    with open(os.path.join(sub, "zinc%d.xml" % q), "w") as f:
+                        f.write('<x><constant name="ZINC%d" value="%d"/><struct name="ZincS%d"><member name="q" type="u8"/></struct></x>' % (q, q, q))
+                if n_inc:
+                    doc = doc.replace("<definitions>", '<definitions xmlns:xi="http://www.w3.org/2001/XInclude">' + "".join(
+                        '<xi:include href="zinc%d.xml"/>' % q for q in range(n_inc)), 1)
                 path = os.path.join(sub, "defs.xml")
                 with open(path, "w") as f:
                     f.write(doc)
                 res["n"] += 1
                 if any(deps.values()):
                     res["nontrivial"] += 1
-                base = {"check": "order", "deps": deps, "input": order, "kinds": kinds, "isar": doc, "variant": variant}
-                status, nodes, _ = CL.run_main([path, "--isar", "--python_out", sub])
+                base = {"check": "order", "deps": deps, "input": order, "kinds": kinds, "isar": doc, "variant": variant,
+                        "included_files": n_inc}
+                status, nodes, _ = CL.run_main([path] + [os.path.join(sub, "zinc%d.xml" % q) for q in range(n_inc)] +
+                                               ["--isar", "--python_out", sub])
                 if status != "ok":
                     res["fails"].append(dict(base, what="prophyc --isar failed on a valid acyclic input: %s" % (nodes,)))
                     continue
-                names = [n.name for n in nodes["defs"]]
+                names = [n.name for n in nodes["defs"] if type(n).__name__ != "Include"]
                 want = sorted(nm(n) for n in deps)
                 if sorted(names) != want:
                     res["fails"].append(dict(base, what="output lists %r, the input defines %r" % (names, want)))
@@ -87,13 +98,22 @@ def topo_worker(cases, lay_by_key, extra):
                                              % (names, nm(n), nm(d)), output=names))
                     continue
                 try:
-                    P.import_generated(sub, "defs")
+                    if n_inc:
+                        # (a module that has includes imports them relatively: a package)
+                        try:
+                            load_package(sub, "p", ["zinc%d" % q for q in range(n_inc)] + ["defs"])
+                        except Exception as e:  # noqa
+                            raise P.CompileFailure("import", P.exc_text(e))
+                    else:
+                        P.import_generated(sub, "defs")
                 except P.CompileFailure as e:
                     res["fails"].append(dict(base, what="generated Python module does not import: %s" % e, output=names))
                     continue
                 key = json.dumps([sorted(deps.items()), variant])
                 lay, idx = lay_by_key[key]
                 for node in nodes["defs"]:
+                    if type(node).__name__ == "Include":
+                        continue
                     n = int(node.name[1:])
                     if kinds[n] in ("struct", "union"):
                         w = lay[idx[str(n)] - 1] if isinstance(idx, dict) and str(n) in idx else lay[idx[n] - 1]
@@ -1408,6 +1428,10 @@ def concretise(case, rnd, root):
     main = "main" + ext
     text = VALID_PROPHY if fe == "prophy" else VALID_ISAR
     extra_argv = []
+
+    def variant(options):
+        # the replicates of a case walk through the variants of its fault class one after the other
+        return options[case["rep"] % len(options)] if "rep" in case else rnd.choice(options)
     if fe == "prophy":
         toks = [t for t in _tokens(text)]
         idx = [i for i, t in enumerate(toks) if t.strip()]
@@ -1502,16 +1526,19 @@ def concretise(case, rnd, root):
         elif fault == "missing_include":
             text = text.replace("<defs>", '<defs><xi:include xmlns:xi="http://www.w3.org/2001/XInclude" href="nowhere.xml"/>')
         elif fault == "bad_dimension":
-            text = text.replace('size="LIMIT" isVariableSize="true"', rnd.choice([
+            text = text.replace('size="LIMIT" isVariableSize="true"', variant([
                 'size="many" isVariableSize="true"', 'size2="4"', 'size="" isVariableSize="true"',
                 'size="LIMIT" isVariableSize="true" variableSizeFieldName=""', 'size="LIMIT" size2=""',
-                'size="THIS_IS_VARIABLE_SIZE_ARRAY" size2="2"', 'variableSizeFieldName="@"', 'size="LIMIT" variableSizeFieldType=""']))
+                'size="THIS_IS_VARIABLE_SIZE_ARRAY" size2="2"', 'variableSizeFieldName="@"', 'size="LIMIT" variableSizeFieldType=""',
+                # every attribute of a dimension present but empty
+                'size="LIMIT" isVariableSize=""', 'size="LIMIT" variableSizeFieldName=""',
+                'size="THIS_IS_VARIABLE_SIZE_ARRAY" variableSizeFieldName=""', 'size="LIMIT" isVariableSize="true" variableSizeFieldType=""']))
         elif fault == "member_without_name":
             text = text.replace('<member name="x" type="u8"/>', '<member type="u8"/>')
         elif fault == "member_without_type":
             text = text.replace('<member name="x" type="u8"/>', '<member name="x"/>')
         elif fault == "empty_root":
-            text = rnd.choice(["<defs/>", "<defs></defs>", "", "<?xml version='1.0'?>"])
+            text = variant(["<defs/>", "<defs></defs>", "", "<?xml version='1.0'?>"])
         elif fault == "random_text":
             text = "".join(rnd.choice("<>/=\"abc defs struct member name type 123\n") for _ in range(rnd.randint(1, 200)))
         elif fault == "token_fuzz":
@@ -1523,7 +1550,7 @@ def concretise(case, rnd, root):
         elif fault == "union_self_arm":
             text = text.replace("</defs>", '<union name="ZU"><member name="a" type="u8" discriminatorValue="1"/><member name="z" type="ZU" discriminatorValue="2"/></union></defs>')
         elif fault == "negative_shift_constant":
-            text = text.replace("</defs>", rnd.choice([
+            text = text.replace("</defs>", variant([
                 '<constant name="ZK" value="1 &lt;&lt; -1"/><struct name="Z"><member name="a" type="u8"><dimension size="ZK"/></member></struct></defs>',
                 '<constant name="ZK" value="256 &gt;&gt; -1"/></defs>',
                 '<constant name="ZS" value="2 - 3"/><constant name="ZK" value="256 &gt;&gt; ZS"/><struct name="Z"><member name="a" type="u8"><dimension size="16 &gt;&gt; ZS"/></member></struct></defs>']))
@@ -1543,19 +1570,19 @@ def concretise(case, rnd, root):
             text = text.replace("</defs>", '<constant name="ZK" value="1 &lt;&lt; 99999999999999"/><enum name="ZE"><enum-member name="ZE_a" '
                                            'value="shiftLeft(1, 8888888888888)"/></enum></defs>')
         elif fault == "empty_member_name":
-            text = text.replace("</defs>", rnd.choice([
+            text = text.replace("</defs>", variant([
                 '<struct name="Z"><member name="" type="u8"><dimension size="THIS_IS_VARIABLE_SIZE_ARRAY"/></member></struct></defs>',
                 '<struct name="Z"><member name="" type="u8"/></struct></defs>',
                 '<struct name=""><member name="a" type=""/></struct></defs>']))
         elif fault == "non_utf8":
             text = text.replace("<defs>", "<defs><!-- \udcff\udcfe -->", 1)
         elif fault == "division_by_zero":
-            text = text.replace("</defs>", rnd.choice([
+            text = text.replace("</defs>", variant([
                 '<constant name="ZK" value="1/0"/></defs>',
                 '<constant name="ZZ" value="0"/><struct name="Z"><member name="a" type="u8"><dimension size="4/ZZ"/></member></struct></defs>',
                 '<enum name="ZE"><enum-member name="ZE_a" value="5 / (2 - 2)"/></enum></defs>']))
         elif fault == "size_names_type":
-            text = text.replace("</defs>", rnd.choice([
+            text = text.replace("</defs>", variant([
                 '<typedef name="ZT" primitiveType="32 bit integer unsigned"/><struct name="Z"><member name="a" type="u8"><dimension size="ZT"/></member></struct></defs>',
                 '<struct name="ZS"><member name="q" type="u8"/></struct><struct name="Z"><member name="a" type="u8"><dimension size="ZS"/></member></struct></defs>',
                 '<typedef name="ZT" type="u16"/><enum name="ZE"><enum-member name="ZE_a" value="ZT"/></enum></defs>']))
@@ -1678,7 +1705,8 @@ def c13(tier, replay):
     rep.add_tlc(res.stats)
     reps = 4 if tier == "quick" else 60
     fz = 6 if tier == "quick" else 400
-    allcases = [c for c in cases for _ in range(16 if c["pfault"] == "valid_rules" else fz if c["fault"] == "token_fuzz" else
+    allcases = [dict(c, rep=i) for c in cases for i in range(16 if c["pfault"] == "valid_rules" else fz if c["fault"] == "token_fuzz" else
+                                                max(reps, 12) if c["fault"] == "bad_dimension" else
                                                 reps if c["fault"] in ("random_text", "illegal_char", "empty_file", "division_by_zero",
                                                                         "size_names_type", "non_utf8", "absurd_shift", "negative_shift_constant",
                                                                         "empty_member_name", "deep_typedef_chain", "bad_dimension") else 1)]
@@ -1745,7 +1773,12 @@ def fe_isar(case):
                }[m["dim"]]
         ms.append("<member %s>%s</member>" % (attrs, dim) if dim else "<member %s/>" % attrs)
     tag = "message" if case["inMessage"] else "struct"
-    return "<defs>%s<%s name=\"X\">%s</%s></defs>\n" % (FE_BASE_ISAR, tag, "".join(ms), tag)
+    x = "<%s name=\"X\">%s</%s>" % (tag, "".join(ms), tag)
+    # isar definitions come in any order: X is written BEFORE the types it uses whenever a type is renamed by the
+    # patch (the patch runs on the list as parsed, before the sort) and in every other case otherwise
+    if any(r["op"] == "rename_type" for r in case["script"]) or len(case["ims"]) % 2 == 1:
+        return "<defs>%s%s</defs>\n" % (x, FE_BASE_ISAR)
+    return "<defs>%s%s</defs>\n" % (FE_BASE_ISAR, x)
 
 
 def fe_patch(case):
